@@ -261,21 +261,18 @@ package wmpt
 //@   ensures err == nil && n2 is *valueNode && n2.(*valueNode) != nil && n2 == node && !n2.(*valueNode).dirty
 //@      | ==> heapof(valueNode.value) == old(heapof(valueNode.value)) && heapof(valueNode.weight) == old(heapof(valueNode.weight))                      #clean-value-means-not-overwritten
 
-// delete: the local part of "total weight, block ownership and root follow content" for a removal: a
-// branch is replaced by a short node (branch reduction) only when exactly one child is left; the
-// weight bookkeeping along the path needs the same tree-shape argument as insert and is left to the
-// bounded history check.
+// delete: the local part of "total weight, block ownership and root follow content" for a removal: the
+// node that replaces a reduced branch is a new, dirty short node (its hash is recomputed; a reused
+// clean node would keep a stale cached hash). That a branch is reduced only when exactly one child
+// is left needs an invariant over the scan loop; such a clause was tried and withdrawn: a harmless
+// rewrite of that loop detached it and raised a false alarm (must-pass corpus, C09b.1). That part,
+// like the weight bookkeeping along the path, is left to the bounded history check.
 //@ func (*WeightedMerkleTrie).delete(t, node, prefix, key) returns (change, n2, err)
 //@   props C09
 //@   mode wrap
-//@   opt only ^post#|^loop
+//@   opt only ^post#
 //@   requires t != nil && Nibbles(key)
-//@   ensures err == nil && node is *routingNode && node.(*routingNode) != nil && n2 != node
-//@      | ==> forall j, k :: 0 <= j && j < 16 && 0 <= k && k < 16 && node.(*routingNode).Children[j] != nil && node.(*routingNode).Children[k] != nil ==> j == k      #branch-reduced-only-when-one-child-is-left
 //@   ensures err == nil && node is *routingNode && node.(*routingNode) != nil && n2 != node ==> n2 is *shortNode && n2.(*shortNode) != nil && n2.(*shortNode).dirty      #reduced-branch-is-a-dirty-short-node
-//@   loop 1 invariant node is *routingNode && node.(*routingNode) != nil && -1 <= pos && pos <= rangeindex && rangeindex < 16                                          #scan-position
-//@   loop 1 invariant pos == -1 ==> forall j :: 0 <= j && j <= rangeindex ==> node.(*routingNode).Children[j] == nil                                                #none-seen-yet
-//@   loop 1 invariant pos >= 0 ==> node.(*routingNode).Children[pos] != nil && forall j :: 0 <= j && j <= rangeindex && j != pos ==> node.(*routingNode).Children[j] == nil      #one-seen-so-far
 
 // ================= C13: checkpoint and rollback (the local part: the root handed back) =================
 //@ func (*WeightedMerkleTrie).SaveRoot(t)
